@@ -570,6 +570,10 @@ func (x *exec) loopEnter(st *State, fr *Frame, lp *loop) bool {
 		for _, cl := range ls.Invariants {
 			st.assume(env.evalBool(cl.Expr))
 		}
+		for _, cl := range ls.Assumes {
+			st.assume(env.evalBool(cl.Expr))
+			e.note("loop assumption in %s (assumed at the loop head, not proved): %s", x.unit.Name, cl.Text)
+		}
 		if ls.Decreases != nil {
 			if st.measure == nil {
 				st.measure = map[*ssa.BasicBlock]smt.Term{}
